@@ -74,10 +74,17 @@ static size_t ares_evsys_poll_wait(ares_event_thread_t *e,
   size_t         cnt = 0;
   size_t         i;
 
+  /* Registered handles but no list: out of memory.  Don't sleep (possibly
+   * forever) without watching anything, not even the wake handle */
+  if (fdlist == NULL && ares_htable_asvp_num_keys(e->ev_sock_handles) > 0) {
+    return 0; /* LCOV_EXCL_LINE: OutOfMemory */
+  }
+
   if (fdlist != NULL && num_fds) {
     pollfd = ares_malloc_zero(sizeof(*pollfd) * num_fds);
     if (pollfd == NULL) {
-      goto done; /* LCOV_EXCL_LINE: OutOfMemory */
+      ares_free(fdlist); /* LCOV_EXCL_LINE: OutOfMemory */
+      goto done;         /* LCOV_EXCL_LINE: OutOfMemory */
     }
     for (i = 0; i < num_fds; i++) {
       const ares_event_t *ev =
